@@ -74,6 +74,21 @@ pub fn frame_any(addr: u32) -> BoxedStrategy<Frame> {
     .boxed()
 }
 
+/// a frame of a DF outside the nine supported formats whose bits 9-32 carry `addr` (the program attributes such a
+/// frame by those bits); it carries no modelled parameter
+pub fn other_df_frame(addr: u32) -> BoxedStrategy<Frame> {
+    (prop_oneof![1u32..4, 6u32..11, 12u32..16, Just(19u32), 22u32..32], gen::fill128())
+        .prop_map(move |(df, fill)| {
+            let len = if df < 16 { 56 } else { 112 };
+            let mut f = Frame::new(len);
+            f.bits = fill & ((1u128 << len) - 1);
+            f.set(1, 5, df as u64);
+            f.set(9, 32, addr as u64);
+            f
+        })
+        .boxed()
+}
+
 /// a history step: aircraft index into gen::POOL, frame, seconds of silence before it
 #[derive(Clone, Debug, serde::Serialize, serde::Deserialize, PartialEq)]
 pub struct Step {
@@ -83,6 +98,6 @@ pub struct Step {
 }
 
 pub fn history(n_aircraft: usize, len: std::ops::Range<usize>, max_dt: i64) -> BoxedStrategy<Vec<Step>> {
-    let step = (0..n_aircraft, prop_oneof![3 => Just(0i64), 1 => 0..=max_dt]).prop_flat_map(|(ac, dt)| (Just(ac), frame_any(gen::POOL[ac]), Just(dt))).prop_map(|(ac, frame, dt)| Step { ac, frame, dt });
+    let step = (0..n_aircraft, prop_oneof![3 => Just(0i64), 1 => 0..=max_dt]).prop_flat_map(|(ac, dt)| (Just(ac), prop_oneof![15 => frame_any(gen::POOL[ac]), 1 => other_df_frame(gen::POOL[ac])], Just(dt))).prop_map(|(ac, frame, dt)| Step { ac, frame, dt });
     proptest::collection::vec(step, len).boxed()
 }
